@@ -50,21 +50,28 @@ UNIT_TRUSTED["packet_validate"] = [
     "NOT covered: the parse side — that parse_message records every flag mismatch / decode failure / unknown well-known attribute in error_attrs with its code and resets the session only for unparsable NLRI (parse_message is not under contract yet)",
 ]
 
+UNIT_TRUSTED["packet_parse"] = [
+    "prelude p_packet_parse: io::Cursor modelled as (buffer, position) with assumed contracts for new/position/set_position/get_ref; byteorder reads as R11 helpers (`requires pos + k <= len` turns every `.unwrap()` of the real code into an obligation); R11b shims for Capability::decode / Attribute::decode (they take `&mut dyn io::Read`): assumed to leave the buffer alone, never move the cursor backwards or past the end, return the attribute with the code / flags given, and a byte-string body for MP_REACH / MP_UNREACH",
+    "trusted (external_body, contracts assumed): PeerCodec::decode_nlri_list (total), PeerCodec::reconcile_as4 (total, keeps stored attributes well-flagged), Nexthop::from_bytes, Notification::from_notification, Attribute::{binary,new_opaque}, HoldTime::new, Ipv4Addr::{from(u32),is_unspecified,is_broadcast,is_multicast} as functions of the 32 bits, <[T]>::to_vec, Option::{is_none_or,filter}, bool::then_some",
+    "precondition buf.len() <= 65535: established by PeerCodec::try_parse (bounded Kani harness bgp_try_parse_framing), the only caller",
+    "NOT covered: the per-family NLRI decoders behind decode_nlri_list and the attribute / capability body decoders (leaf byte-level code)",
+]
+
 # minimum number of functions that must produce obligations / of must-fail twins that must run
-FLOORS = {"daemon_fsm": 30, "daemon_gr": 4, "daemon_peer_tx": 7, "table_cmp": 20, "packet_validate": 1}
-TWIN_FLOORS = {"daemon_fsm": 8, "daemon_gr": 3, "daemon_peer_tx": 2, "table_cmp": 4, "packet_validate": 1}
+FLOORS = {"daemon_fsm": 30, "daemon_gr": 4, "daemon_peer_tx": 7, "table_cmp": 20, "packet_validate": 1, "packet_parse": 1}
+TWIN_FLOORS = {"daemon_fsm": 8, "daemon_gr": 3, "daemon_peer_tx": 2, "table_cmp": 4, "packet_validate": 1, "packet_parse": 1}
 
 PLAN = {
     "C01": {"verus": ["daemon_peer_tx"], "level": "proof"},
-    "C05": {"verus": ["packet_validate"], "kani": ["c05_canonical_flags_table"], "level": "proof"},
+    "C05": {"verus": ["packet_validate", "packet_parse"], "kani": ["c05_canonical_flags_table"], "level": "proof"},
     "C06": {"verus": [], "kani": ["c06_id_alloc_unique", "c06_id_dealloc_exact", "c06_id_alloc_mustfail"], "level": "other",
             "explanation": "BOUNDED stand-in, not a proof: Kani/CBMC harnesses on the real IdAllocator::{alloc,dealloc} with <= 4 bitmap words (256 live ids per shard), every word over its full 64-bit domain, under the representation invariant 'no trailing zero word': alloc returns the least free id, which no live prefix holds, marks exactly it live and keeps the shard index in bits 31..24; dealloc frees exactly its id and restores the invariant. Only the identifier-uniqueness clause of C06 is addressed; the change-stream fold and the end-of-deferral clause live in Table::{insert,remove,end_deferral,...} (note T) and are not covered."},
-    "C07": {"verus": ["daemon_fsm"], "level": "proof"},
+    "C07": {"verus": ["daemon_fsm", "packet_parse"], "level": "proof"},
     "C08": {"verus": ["daemon_fsm"], "level": "proof"},
     "C10": {"verus": ["daemon_gr"], "level": "proof"},
     "C16": {"verus": ["daemon_fsm"], "kani": ["c16_ipnet_contains_v4", "c16_ipnet_contains_v6"], "level": "proof"},
     "C02": {"verus": ["table_cmp"], "level": "proof"},
-    "C03": {"verus": [], "level": "proof",
+    "C03": {"verus": ["packet_parse"], "level": "proof",
             "kani": ["bfd_decode_total_and_exact", "bfd_decode_mustfail", "rtr_frame_length_contract",
                      "rtr_from_bytes_total", "rtr_decode_framing", "bgp_try_parse_framing"]},
 }
